@@ -30,7 +30,8 @@ def run(ctx):
     site = ctx.site(NEXT)
     D_ = ('self.done', False)
     EQ = '(self.payload.delivery_tag == self.parent.expected)'
-    GT = '(self.payload.delivery_tag > self.parent.expected)'
+    GT = '(self.parent.expected < self.payload.delivery_tag)'  # canonical comparison form: tag > expected
+    LT = '(self.payload.delivery_tag < self.parent.expected)'   # neither equal nor greater (trichotomy is applied by the path reader)
 
     def row(*conds):
         return [x for x in rows if x.conds == list(conds)]
@@ -59,14 +60,14 @@ def run(ctx):
                 expected='under tag == expected: Some(to_confirm(payload.delivery_tag))')
 
     with ctx.rule('R14.3', 'the store is consulted for every tag not confirmed by this very call; look-ahead after each increment', floor=4) as r:
-        x = row(D_, (EQ, False), (GT, True), ('self.payload.multiple', True))
+        x = row(D_, (GT, True), ('self.payload.multiple', True))
         if r.check('multiple-row', len(x) == 1, site, built=[y.cond_strs() for y in rows]):
             x = x[0]
             take = 'std::option::Option::unwrap_or_else(%s, || value:self.to_confirm(self.parent.expected))' % LOOK
             ok = take in x.effects and INC in x.effects and x.effects.index(take) < x.effects.index(INC) and x.value_str() == 'Some(%s)' % take
             r.check('multiple:stored-outcome-first', ok, site, built=x.row(), expected={'do': [LOOK, take, INC], 'value': 'Some(%s)' % take},
                     why='a tag already confirmed on its own (e.g. nack(2)) keeps that outcome when a later multiple covers it; the stash entry is removed')
-        for nm, conds, val in (('exact', [D_, (EQ, True)], None), ('lookahead', [D_, (EQ, False), (GT, False), ('std::option::Option::take(self.next)', 'Some(_)')], 'Some(std::option::Option::take(self.next).Some.0)')):
+        for nm, conds, val in (('exact', [D_, (EQ, True)], None), ('lookahead', [D_, (LT, True), ('std::option::Option::take(self.next)', 'Some(_)')], 'Some(std::option::Option::take(self.next).Some.0)')):
             x = row(*conds)
             if r.check('%s-row' % nm, len(x) == 1, site):
                 x = x[0]
@@ -77,12 +78,12 @@ def run(ctx):
                     r.eq('%s:emits-stored-item' % nm, x.value_str(), val, site)
 
     with ctx.rule('R14.4', 'a non-multiple future confirmation is stashed under its own tag with its own outcome and ends the iterator', floor=2) as r:
-        x = row(D_, (EQ, False), (GT, True), ('self.payload.multiple', False))
+        x = row(D_, (GT, True), ('self.payload.multiple', False))
         if r.check('stash-row', len(x) == 1, site):
             x = x[0]
             ins = 'std::collections::HashMap::insert(self.parent.out_of_order, self.payload.delivery_tag, value:self.to_confirm(self.payload.delivery_tag))'
             r.check('stash', ins in x.effects and 'self.done = true' in x.effects and x.value_str() == 'None', site, built=x.row(), expected={'do': [ins, 'self.done = true'], 'value': 'None'})
-        x = row(D_, (EQ, False), (GT, False), ('std::option::Option::take(self.next)', 'None'))
+        x = row(D_, (LT, True), ('std::option::Option::take(self.next)', 'None'))
         r.check('finish', len(x) == 1 and 'self.done = true' in x[0].effects and x[0].value_str() == 'None', site, built=[y.row() for y in x])
         x = row(('self.done', True))
         r.check('done-stays-done', len(x) == 1 and x[0].value_str() == 'None' and not x[0].effects, site, built=[y.row() for y in x])
